@@ -87,6 +87,17 @@ pub mod ev {
         ensures #[trigger] binds(v, var) == vars_binds(*v, var);
     pub broadcast axiom fn ax_cow_borrowed(s: &str)
         ensures #[trigger] crate::cow_view(std::borrow::Cow::Borrowed(s)) == s@;
+    /// the file scope after the top-level definitions `defs` (name, expanded value) were read in order: later ones win
+    pub open spec fn apply_defs(m: Map<Seq<char>, Seq<char>>, defs: Seq<(Seq<char>, Seq<char>)>) -> Map<Seq<char>, Seq<char>>
+        decreases defs.len()
+    {
+        if defs.len() == 0 { m } else { apply_defs(m, defs.drop_last()).insert(defs.last().0, defs.last().1) }
+    }
+    pub proof fn lemma_apply_push(m: Map<Seq<char>, Seq<char>>, defs: Seq<(Seq<char>, Seq<char>)>, d: (Seq<char>, Seq<char>))
+        ensures apply_defs(m, defs.push(d)) == apply_defs(m, defs).insert(d.0, d.1)
+    {
+        assert(defs.push(d).drop_last() =~= defs);
+    }
     pub proof fn lemma_lookup_skip(v: Seq<char>, envs: Seq<&dyn Env>, a: int, i: int)
         requires 0 <= a <= i <= envs.len(), forall|j: int| a <= j < i ==> binds(#[trigger] envs[j], v) is None
         ensures lookup(v, envs, a) == lookup(v, envs, i)
